@@ -180,11 +180,25 @@ Proof.
   unfold ads_of. intro H. apply filter_In in H as [_ H]. apply complete_b_sound. exact H.
 Qed.
 
-Lemma freshb_sound p tr k t :
-  freshb p (ads_of p (filter is_ctl tr) (sends_of k tr) k) t = true -> fresh p tr k t.
+Lemma restarts_of_In ctl rho : In rho (restarts_of ctl) -> In (ERestart rho) ctl.
 Proof.
-  unfold freshb. intro H. apply existsb_exists in H as [a [Ha Hr]].
-  exists a, (a + p_W p). split; [apply ads_of_complete; exact Ha|]. lia.
+  unfold restarts_of. rewrite in_flat_map. intros [e [He Hr]].
+  destruct e; simpl in Hr; try contradiction. destruct Hr as [<-|[]]. exact He.
+Qed.
+
+Lemma freshb_sound p tr k t :
+  freshb p (ads_of p (filter is_ctl tr) (sends_of k tr) k) (restarts_of (filter is_ctl tr)) t = true ->
+  fresh p tr k t.
+Proof.
+  unfold freshb. intro H. apply orb_true_iff in H as [H|H].
+  - apply existsb_exists in H as [a [Ha Hr]].
+    left. exists a, (a + p_W p). split; [apply ads_of_complete; exact Ha|]. lia.
+  - apply existsb_exists in H as [rho [Hrho Hr]].
+    apply andb_true_iff in Hr as [Hr Hx]. apply existsb_exists in Hx as [a [Ha Hx]].
+    right. exists rho, a, (a + p_W p).
+    apply restarts_of_In in Hrho. apply filter_In in Hrho as [Hrho _].
+    split; [exact Hrho|]. split; [lia|]. split; [lia|].
+    split; [apply ads_of_complete; exact Ha|]. lia.
 Qed.
 
 (* ---- clause 2: it is enough to look at the critical times ------------------------------------- *)
@@ -205,22 +219,29 @@ Proof.
     rewrite Hall in Fe by lia. discriminate.
 Qed.
 
-Lemma freshb_step p ads t :
-  freshb p ads t = true -> freshb p ads (t + 1) = false -> exists a, In a ads /\ t + 1 = a + p_D p + 1.
+Lemma freshb_step p ads rs t :
+  freshb p ads rs t = true -> freshb p ads rs (t + 1) = false ->
+  exists a, In a (ads ++ rs) /\ t + 1 = a + p_D p + 1.
 Proof.
-  unfold freshb. intros H1 H2. apply existsb_exists in H1 as [a [Ha Hr]].
-  pose proof (existsb_false_all _ _ H2 a Ha) as F. simpl in F.
-  exists a. split; [exact Ha|lia].
+  unfold freshb. intros H1 H2. apply orb_false_iff in H2 as [H2 H3].
+  apply orb_true_iff in H1 as [H1|H1].
+  - apply existsb_exists in H1 as [a [Ha Hr]].
+    pose proof (existsb_false_all _ _ H2 a Ha) as F. simpl in F.
+    exists a. split; [apply in_or_app; left; exact Ha|lia].
+  - apply existsb_exists in H1 as [rho [Hrho Hr]].
+    pose proof (existsb_false_all _ _ H3 rho Hrho) as F. simpl in F.
+    apply andb_true_iff in Hr as [Hr Hx]. rewrite Hx in F. rewrite andb_true_r in F.
+    exists rho. split; [apply in_or_app; right; exact Hrho|lia].
 Qed.
 
 Lemma chk_fresh_key_all p ctl ads k :
-  forallb (fun c => implb ((p_G p <=? c) && (c <=? p_end p) && hypb p ctl k c) (freshb p ads c))
+  forallb (fun c => implb ((p_G p <=? c) && (c <=? p_end p) && hypb p ctl k c) (freshb p ads (restarts_of ctl) c))
           (crit p ctl ads) = true ->
-  forall t, p_G p <= t -> t <= p_end p -> hypb p ctl k t = true -> freshb p ads t = true.
+  forall t, p_G p <= t -> t <= p_end p -> hypb p ctl k t = true -> freshb p ads (restarts_of ctl) t = true.
 Proof.
   intro Hc. rewrite forallb_forall in Hc.
   assert (Crit : forall c, In c (crit p ctl ads) -> p_G p <= c -> c <= p_end p ->
-                           hypb p ctl k c = true -> freshb p ads c = true).
+                           hypb p ctl k c = true -> freshb p ads (restarts_of ctl) c = true).
   { intros c Hin H1 H2 H3. specialize (Hc c Hin).
     replace ((p_G p <=? c) && (c <=? p_end p)) with true in Hc by lia. rewrite H3 in Hc. exact Hc. }
   intro t. induction t as [|t IH] using N.peano_ind; intros HG He Hh.
@@ -231,8 +252,8 @@ Proof.
     + assert (HG' : p_G p <= t) by lia. assert (He' : t <= p_end p) by lia.
       destruct (hypb p ctl k t) eqn:Ht.
       * specialize (IH HG' He' eq_refl).
-        destruct (freshb p ads (t + 1)) eqn:F; [reflexivity|].
-        destruct (freshb_step _ _ _ IH F) as [a [Ha Ea]].
+        destruct (freshb p ads (restarts_of ctl) (t + 1)) eqn:F; [reflexivity|].
+        destruct (freshb_step _ _ _ _ IH F) as [a [Ha Ea]].
         rewrite <- F. apply Crit; try assumption.
         unfold crit. right. apply in_or_app. left. apply in_map_iff. exists a. split; [lia|exact Ha].
       * destruct (hypb_step _ _ _ _ HG' Ht Hh) as [e [Hin Te]].
@@ -424,4 +445,212 @@ Proof.
   - apply chk_fresh_sound. exact H2.
   - destruct (chk_stop_sound p tr [] H3) as [_ [Hb _]]. exact Hb.
   - intros pre t ks post k E. eapply (chk_once_sound p tr tr []); [reflexivity|exact H4|exact E].
+Qed.
+
+(* ======================= PART B ================================================================ *)
+From Verif.Model Require Import Trie Keyspace.
+From Verif.Proofs Require Import KeyspaceBase KeyspaceProofs KeyspaceTrie.
+
+(* ---- bit strings as numbers ---------------------------------------------------------------------- *)
+Definition bv (acc : N) (k : bits) : N :=
+  fold_left (fun acc (b : bool) => 2 * acc + (if b then 1 else 0)) k acc.
+
+Lemma bv_cons acc b k : bv acc (b :: k) = bv (2 * acc + (if b then 1 else 0)) k.
+Proof. reflexivity. Qed.
+
+Lemma pow2_S n : 2 ^ N.of_nat (S n) = 2 * 2 ^ N.of_nat n.
+Proof. replace (N.of_nat (S n)) with (N.succ (N.of_nat n)) by lia. apply N.pow_succ_r'. Qed.
+
+Lemma bv_acc k : forall acc, bv acc k = acc * 2 ^ N.of_nat (length k) + bv 0 k.
+Proof.
+  induction k as [|b k IH]; intro acc.
+  - unfold bv. simpl. lia.
+  - rewrite !bv_cons. rewrite (IH (2 * acc + _)), (IH (2 * 0 + _)).
+    simpl length. rewrite pow2_S. remember (2 ^ N.of_nat (length k)) as X. remember (bv 0 k) as y.
+    destruct b; ring.
+Qed.
+
+Lemma bv0_lt k : bv 0 k < 2 ^ N.of_nat (length k).
+Proof.
+  induction k as [|b k IH].
+  - unfold bv. simpl. lia.
+  - rewrite bv_cons, bv_acc. simpl length. rewrite pow2_S.
+    remember (2 ^ N.of_nat (length k)) as X. remember (bv 0 k) as y. destruct b; lia.
+Qed.
+
+Lemma bits_val_lt k : bits_val k < 2 ^ N.of_nat (length k).
+Proof. exact (bv0_lt k). Qed.
+
+Lemma bits_val_snoc k b : bits_val (k ++ [b]) = 2 * bits_val k + (if b then 1 else 0).
+Proof. unfold bits_val. rewrite fold_left_app. reflexivity. Qed.
+
+Lemma xor_bits_length a : forall b, (length (xor_bits a b) <= length a)%nat.
+Proof. induction a as [|x a IH]; intros [|y b]; simpl; try lia. specialize (IH b). lia. Qed.
+
+(* ---- slots: I * v / 2^n --------------------------------------------------------------------------- *)
+Definition slot (I : N) (n : nat) (v : N) : N := I * v / 2 ^ N.of_nat n.
+
+Lemma pow2_pos n : 0 < 2 ^ N.of_nat n.
+Proof. apply N.neq_0_lt_0. apply N.pow_nonzero. lia. Qed.
+
+Lemma slot_lt I n v : 0 < I -> v < 2 ^ N.of_nat n -> slot I n v < I.
+Proof.
+  intros HI Hv. unfold slot. pose proof (pow2_pos n) as P.
+  apply N.div_lt_upper_bound; [lia|]. rewrite N.mul_comm. apply N.mul_lt_mono_pos_r; assumption.
+Qed.
+
+Lemma slot_mono I n v1 v2 : v1 <= v2 -> slot I n v1 <= slot I n v2.
+Proof.
+  intro H. unfold slot. pose proof (pow2_pos n) as P.
+  apply N.div_le_mono; [lia|]. apply N.mul_le_mono_l. exact H.
+Qed.
+
+Lemma div_lt_of_gap a b d : 0 < d -> a + d <= b -> a / d < b / d.
+Proof.
+  intros Hd H.
+  assert (E : (a + 1 * d) / d = a / d + 1) by (apply N.div_add; lia).
+  assert (L : (a + 1 * d) / d <= b / d) by (apply N.div_le_mono; lia).
+  lia.
+Qed.
+
+(* distinct values get distinct slots as long as the interval has at least 2^n units *)
+Lemma slot_strict I n v1 v2 : 2 ^ N.of_nat n <= I -> v1 < v2 -> slot I n v1 < slot I n v2.
+Proof.
+  intros HI H. unfold slot. pose proof (pow2_pos n) as P.
+  apply div_lt_of_gap; [exact P|].
+  replace v2 with (v1 + (v2 - v1)) by lia. rewrite N.mul_add_distr_l.
+  assert (I <= I * (v2 - v1)). { replace I with (I * 1) at 1 by lia. apply N.mul_le_mono_l. lia. }
+  lia.
+Qed.
+
+Lemma div_add_le a b d : 0 < d -> (a + b) / d <= a / d + b / d + 1.
+Proof.
+  intro Hd.
+  pose proof (N.div_mod a d ltac:(lia)) as Ea. pose proof (N.div_mod b d ltac:(lia)) as Eb.
+  pose proof (N.mod_lt a d ltac:(lia)) as La. pose proof (N.mod_lt b d ltac:(lia)) as Lb.
+  assert (H : (a + b) / d < a / d + b / d + 2).
+  { apply N.div_lt_upper_bound; [lia|].
+    remember (a / d) as qa. remember (b / d) as qb. remember (a mod d) as ra. remember (b mod d) as rb.
+    rewrite !N.mul_add_distr_l. lia. }
+  lia.
+Qed.
+
+(* a region split in two: the halves keep the parent's slot or move at most half a slot later *)
+Lemma slot_child I n v (c : bool) :
+  let vc := 2 * v + (if c then 1 else 0) in
+  slot I n v <= slot I (S n) vc /\ slot I (S n) vc <= slot I n v + I / 2 ^ N.of_nat (S n) + 1.
+Proof.
+  intro vc. unfold slot. pose proof (pow2_pos n) as P. pose proof (pow2_pos (S n)) as P'.
+  assert (E2 : 2 ^ N.of_nat (S n) = 2 * 2 ^ N.of_nat n) by apply pow2_S.
+  assert (Ep : I * (2 * v) / 2 ^ N.of_nat (S n) = I * v / 2 ^ N.of_nat n).
+  { rewrite E2. replace (I * (2 * v)) with (2 * (I * v)) by lia. apply N.div_mul_cancel_l; lia. }
+  split.
+  - rewrite <- Ep. apply N.div_le_mono; [lia|]. apply N.mul_le_mono_l. unfold vc. destruct c; lia.
+  - unfold vc. rewrite N.mul_add_distr_l.
+    eapply N.le_trans; [apply div_add_le; exact P'|]. rewrite Ep.
+    assert (I * (if c then 1 else 0) / 2 ^ N.of_nat (S n) <= I / 2 ^ N.of_nat (S n)).
+    { apply N.div_le_mono; [lia|]. destruct c; lia. }
+    lia.
+Qed.
+
+(* reprovideTimeForPrefix is a slot of the value prefix XOR order *)
+Lemma reprovide_time_slot I order x p :
+  let q := firstn max_prefix_size (x :: p) in
+  reprovide_time I order (x :: p) = slot I (length q) (bits_val (xor_bits q (firstn (length q) order))).
+Proof. reflexivity. Qed.
+
+Theorem reprovide_time_range I order p : 0 < I -> reprovide_time I order p < I.
+Proof.
+  intro HI. destruct p as [|x p]; [simpl; exact HI|].
+  rewrite reprovide_time_slot. apply slot_lt; [exact HI|].
+  eapply N.lt_le_trans; [apply bits_val_lt|].
+  apply N.pow_le_mono_r; [lia|]. pose proof (xor_bits_length (firstn max_prefix_size (x :: p))
+    (firstn (length (firstn max_prefix_size (x :: p))) order)). lia.
+Qed.
+
+(* the min(..., now + interval + maxDelay) of schedulePrefixNoLock never changes anything *)
+Theorem min_rule_never_binds I max_delay now_off order p :
+  0 < I -> next_time_just_reprovided I max_delay now_off (reprovide_time I order p) = reprovide_time I order p.
+Proof.
+  intro HI. unfold next_time_just_reprovided. pose proof (reprovide_time_range I order p HI). lia.
+Qed.
+
+(* timeBetween: in [1, I], and it is the time from one offset to the next occurrence of the other *)
+Theorem time_between_spec I from to :
+  0 < I -> from < I -> to < I ->
+  1 <= time_between I from to /\ time_between I from to <= I /\
+  (from + time_between I from to) mod I = to.
+Proof.
+  intros HI Hf Ht. unfold time_between.
+  destruct (N.le_gt_cases to from) as [Hle|Hgt].
+  - (* next cycle *)
+    assert (E : (to + I - 1 - from) mod I = to + I - 1 - from) by (apply N.mod_small; lia).
+    rewrite E. split; [lia|]. split; [lia|].
+    replace (from + (to + I - 1 - from + 1)) with (to + 1 * I) by lia.
+    rewrite N.mod_add by lia. apply N.mod_small. exact Ht.
+  - assert (E : (to + I - 1 - from) mod I = to - 1 - from).
+    { symmetry. apply (N.mod_unique _ _ 1); lia. }
+    rewrite E. split; [lia|]. split; [lia|].
+    replace (from + (to - 1 - from + 1)) with to by lia. apply N.mod_small. exact Ht.
+Qed.
+
+(* a region reprovided exactly at its offset comes back one full interval later *)
+Corollary time_between_same I o : 0 < I -> o < I -> time_between I o o = I.
+Proof.
+  intros HI Ho. unfold time_between.
+  replace (o + I - 1 - o) with (I - 1) by lia. rewrite N.mod_small by lia. lia.
+Qed.
+
+(* ---- the schedule trie stays prefix-free: no Panic from Trie.Add -------------------------------------- *)
+Lemma wf_compat {D} (t : trie D) : wf t -> compat (keys_of t).
+Proof.
+  intros Hw a b Ha Hb Hc. unfold keys_of in *.
+  apply in_map_iff in Ha as [ea [<- Hea]]. apply in_map_iff in Hb as [eb [<- Heb]].
+  unfold comparable in Hc. apply orb_true_iff in Hc as [Hc|Hc].
+  - f_equal. eapply wf_prefix_free; eauto.
+  - f_equal. symmetry. eapply wf_prefix_free; eauto.
+Qed.
+
+Theorem sched_add_wf (t : trie N) p off :
+  wf t ->
+  exists t', sched_add t p off = Ok t' /\ wf t' /\
+    ((exists y, In y (keys_of t) /\ is_prefix y p = true) -> t' = t) /\
+    ((forall y, In y (keys_of t) -> is_prefix y p = false) ->
+       forall k, In k (keys_of t') <-> k = p \/ (In k (keys_of t) /\ is_prefix p k = false)).
+Proof.
+  intro Hw. unfold sched_add.
+  destruct (find_prefix_exact t p Hw) as [x [b [E [Hb _]]]]. rewrite E. simpl.
+  destruct b.
+  - exists t. split; [reflexivity|]. split; [exact Hw|]. split; [reflexivity|].
+    intro Hn. destruct (proj1 Hb eq_refl) as [y [Hy Py]]. rewrite (Hn y Hy) in Py. discriminate.
+  - assert (Hno : forall y, In y (keys_of t) -> is_prefix y p = false).
+    { intros y Hy. destruct (is_prefix y p) eqn:P; [|reflexivity].
+      assert (false = true) by (apply Hb; exists y; auto). discriminate. }
+    destruct (prune_exact t p Hw) as [t1 [E1 [W1 En]]]. rewrite E1. simpl.
+    assert (K1 : forall k, In k (keys_of t1) <-> In k (keys_of t) /\ is_prefix p k = false).
+    { intro k. unfold keys_of. rewrite En. split.
+      - intro H. apply in_map_iff in H as [e [<- He]]. apply filter_In in He as [He Pe].
+        split; [apply in_map; exact He|]. apply negb_true_iff in Pe. exact Pe.
+      - intros [H Pk]. apply in_map_iff in H as [e [<- He]]. apply in_map. apply filter_In.
+        split; [exact He|]. apply negb_true_iff. exact Pk. }
+    assert (Cp : compat (p :: keys_of t1)).
+    { intros a c Ha Hc Hcmp. destruct Ha as [<-|Ha]; destruct Hc as [<-|Hc]; try reflexivity.
+      - exfalso. apply K1 in Hc as [Hc Pc]. unfold comparable in Hcmp.
+        apply orb_true_iff in Hcmp as [H|H]; [congruence|]. rewrite (Hno _ Hc) in H. discriminate.
+      - exfalso. apply K1 in Ha as [Ha Pa]. unfold comparable in Hcmp.
+        apply orb_true_iff in Hcmp as [H|H]; [|congruence]. rewrite (Hno _ Ha) in H. discriminate.
+      - apply (wf_compat t1 W1); assumption. }
+    destruct (add_one_spec t1 p off W1 Cp) as [t' [E2 [W2 A]]].
+    exists t'. rewrite E2. split; [reflexivity|]. split; [exact W2|]. split.
+    + intros [y [Hy Py]]. rewrite (Hno y Hy) in Py. discriminate.
+    + intros _ k. unfold keys_of at 1. split.
+      * intro H. apply in_map_iff in H as [e [<- He]]. apply A in He as [He|[He _]].
+        -- right. apply K1. apply in_map. exact He.
+        -- left. destruct He as [<-|[]]. reflexivity.
+      * intros [->|H].
+        -- destruct (in_dec (list_eq_dec Bool.bool_dec) p (keys_of t1)) as [Hin|Hnin].
+           ++ exfalso. apply K1 in Hin as [_ Hp]. rewrite is_prefix_refl in Hp. discriminate.
+           ++ apply in_map_iff. exists (p, off). split; [reflexivity|]. apply A. right.
+              split; [left; reflexivity|]. exact Hnin.
+        -- apply K1 in H. apply in_map_iff in H as [e [<- He]]. apply in_map. apply A. left. exact He.
 Qed.
